@@ -82,3 +82,20 @@ impl<'a> System<'a> for Noop {
     type SystemData = ();
     fn run(&mut self, _: ()) {}
 }
+
+/// a system that stays inside `run` until it is released (or 30 s have passed): a busy neighbour
+pub struct Blocker {
+    pub started: Arc<std::sync::atomic::AtomicBool>,
+    pub release: Arc<std::sync::atomic::AtomicBool>,
+}
+impl<'a> System<'a> for Blocker {
+    type SystemData = ();
+    fn run(&mut self, _: ()) {
+        use std::sync::atomic::Ordering;
+        self.started.store(true, Ordering::SeqCst);
+        let t0 = std::time::Instant::now();
+        while !self.release.load(Ordering::SeqCst) && t0.elapsed() < Duration::from_secs(30) {
+            std::thread::sleep(Duration::from_millis(1));
+        }
+    }
+}
